@@ -168,7 +168,9 @@ where
                 if first_err.is_none() {
                     first_err = Some(err_str(&e));
                 }
-                if errs > 3 {
+                // keep stepping: a layer that does not stay in front of the bad page would re-enter the byte
+                // stream out of sync and hand out items the intact file never yields
+                if errs > 12 {
                     break;
                 }
             }
